@@ -191,6 +191,48 @@ CORPUS = [
 ]
 
 
+def exec_queue_family(chk, sess):
+    """Cancellation while a task computes in a REAL child process on the engine's execution queue (TaskInterface::spawn), also after the
+    engine has already marked the build cancelled by itself (a task asking for a reserved input id): the client's cancelBuild() must
+    still interrupt the child, build() must return (the child would run for a minute), nothing may be left running, and later builds
+    are clean.  The driver's watchdog turns a build that does not return within 6 s of the cancellation into a WATCHDOG line."""
+    n = 0
+    for bad in (0, 1, 2):
+        for order in ("1,2", "2,1"):
+            for delay in (150000, 400000):
+                L = ["db 1", "queue lanes", "rule 0 sig=0 obs=0 req=%s" % order, "rule 1 sig=0 obs=0 proc=60000",
+                     "rule 2 sig=0 obs=0 req=3" + (" bad=%d" % bad if bad else ""), "rule 3 sig=0 obs=1", "set 3 1",
+                     "build 0 cancel=thread:%d watchdog=6000" % delay, "fresh 0",
+                     # a new engine over the database sees the edited rules (the child now ends by itself, rule 2 is healthy)
+                     "rule 1 sig=0 obs=0 proc=20", "rule 2 sig=0 obs=0 req=3", "set 3 2", "restart", "build 0", "fresh 0", "set 3 3", "build 0", "fresh 0"]
+                r = sess.run(L, "xq%d" % n, timeout=90)
+                n += 1
+                out = r["out"]
+                rp = dict(scenario=L, implementation=out[-60:], stderr=r["err"][-800:], origin="exec-queue family bad=%d order=%s delay=%d" % (bad, order, delay))
+                if r["rc"] != 0:
+                    chk.violation("hang-or-crash" if r["rc"] == -9 else "driver-crash", "the engine did not return from a cancelled build whose task runs a child process (driver status %s)" % r["rc"],
+                                  rp, found_input=True, broken="cancellation oracle on the implementation")
+                    continue
+                builds = K.parse_impl(out)
+                wd = [l for l in out if "WATCHDOG" in l]
+                b0 = builds[0]
+                el = [int(l.split(" ")[1]) for l in b0["other"] if l.startswith("elapsed_ms")]
+                pd = [l for l in b0["other"] if l.startswith("procdone")]
+                if wd or (el and el[0] > delay // 1000 + 5000):
+                    chk.violation("cancel-ignored-running-process", "cancelBuild() did not interrupt the child process a task was running (%s): build() came back only after the watchdog killed the child (%s ms)" % (
+                        "after the engine had marked the build cancelled by itself: reserved input id" if bad else "healthy build", el[:1]), rp, found_input=True,
+                        broken="cancellation oracle on the implementation")
+                elif "cancelled" not in (b0["result"] or "") or not (b0["result"] or "").startswith("result EMPTY"):
+                    chk.violation("cancel-not-failure", "a build cancelled while a child process was running returned %r" % b0["result"], rp, found_input=True,
+                                  broken="cancellation oracle on the implementation")
+                elif pd and not pd[0].endswith("cancelled"):
+                    chk.violation("cancel-status-running-process", "the interrupted child was reported as %r" % pd[0], rp, found_input=True, broken="cancellation oracle on the implementation")
+                for key, what in K.oracle_c01(builds[1:]):
+                    chk.violation(key + "-after-cancel", what, rp, found_input=True, broken="cancellation oracle on the implementation")
+                chk.count(("xq", bad, order, delay), n=3)
+    chk.cov["exec_queue_cancel_scenarios"] = n
+
+
 def run(chk):
     sess = K.Session(chk)
     chk.proof_gate()
@@ -235,6 +277,7 @@ def run(chk):
             go(L, "h%d" % (i % 30), "seed=%d index=%d %s %s" % (chk.seed, i, sched, cancel))
         if i < 2:
             chk.sample("\n".join(L[:14]))
+    exec_queue_family(chk, sess)
     sess.close()
     # build-system level: cancellation through BuildSystemFrontend (command skip state, same frontend reused, new process over the same database)
     try:
